@@ -3,6 +3,7 @@ attribution, and a per-document fixpoint BFS over claim / unclaim / auto-claim c
 from __future__ import annotations
 
 import re
+import copy
 from typing import Any, Optional
 
 from autobean_refactor import models as M
@@ -239,6 +240,20 @@ def run_claim_trace(case: dict, clauses: set[str], *, check_from: int = 0) -> tu
                 res.violations[k] = (key, txt, sub)
             if len(res.violations) > n:
                 return res, None
+            # the attribution (owner and claimed flag of every comment) is part of the document: a deep copy taken in this
+            # state must carry the same one (a copy that raises is C11's finding, not judged here)
+            try:
+                cp = copy.deepcopy(root)
+            except Exception:  # noqa
+                cp = None
+                res.counters['deep copy of the state raised (left to C11)'] += 1
+            if cp is not None:
+                a0, a1 = attribution(root), attribution(cp)
+                if a0 != a1:
+                    bad = sorted(k for k in set(a0) | set(a1) if a0.get(k) != a1.get(k))[0]
+                    res.fail(f'C14/deep-copy-attribution-differs[{site}]', where + f'comment at offset {bad}: (owners, claimed) = '
+                             f'{a0.get(bad)} in the document, {a1.get(bad)} in its deep copy', sub)
+                    return res, None
         if 'tree' in clauses:
             errs = tree.check_tree(root)
             if errs:
